@@ -137,6 +137,11 @@ impl<P: MNT4Config> MNT4<P> {
     pub fn ate_miller_loop(p: &G1Prepared<P>, q: &G2Prepared<P>) -> Fp4<P::Fp4Config> {
         let l1_coeff = Fp2::new(p.x, P::Fp::zero()) - &q.x_over_twist;
 
+        // e(P, O) = 1: a prepared point at infinity carries no coefficients.
+        if q.double_coefficients.is_empty() {
+            return <Fp4<P::Fp4Config>>::one();
+        }
+
         let mut f = <Fp4<P::Fp4Config>>::one();
 
         let mut add_idx: usize = 0;
